@@ -13,8 +13,11 @@ def list_mutants(prop=None):
     for d in sorted(glob.glob(os.path.join(VERIF, "mutants", "*.diff"))):
         name = os.path.basename(d)[:-5]
         exp = open(d[:-5] + ".expect").read().split()
-        if prop is None or exp[0] == prop or name.startswith(prop):
-            out.append((name, d, exp[0], exp[1]))
+        props = exp[0].split(",")
+        if prop is None or prop in props or name.startswith(prop):
+            for p in props:
+                if prop is None or prop == p or name.startswith(prop):
+                    out.append((name if len(props) == 1 else "%s@%s" % (name, p), d, p, exp[1]))
     return out
 
 
